@@ -236,6 +236,13 @@ func addrKey(v ssa.Value, d int) string {
 		if t.Op == token.MUL {
 			return "*(" + addrKey(t.X, d+1) + ")"
 		}
+	case *ssa.TypeAssert:
+		if !t.CommaOk {
+			// the dynamic value of an interface: the same pointer each time the same interface value is asserted
+			return "assert(" + addrKey(t.X, d+1) + ")"
+		}
+	case *ssa.ChangeType:
+		return addrKey(t.X, d+1)
 	case *ssa.Parameter:
 		return "param:" + t.Name()
 	case *ssa.Global:
